@@ -12,7 +12,7 @@ PROPS = {}
 PROPS["C18"] = {
     "level": "fault_enumeration",
     "technique": "model-based stateful PBT (rapid) vs a map; crash-point x lost-write enumeration of a recorded disk trace with a prefix oracle; porcupine linearizability oracle over generated concurrent programs",
-    "level_text": "Generated put/get programs are judged against a map after every step; every crash point of each recorded disk trace (quick: up to 400 per program, thorough: all) times the lost-write variants, plus second crashes during recovery, is recovered with the real code and must equal a prefix containing all acknowledged puts; generated concurrent programs must be linearizable. Fault enumeration is the right level because the property quantifies over crash points, which are finite per trace and enumerated completely.",
+    "level_text": "Generated put/get programs are judged against a map after every step; every crash point of each recorded disk trace (quick: up to 400 per program, thorough: all) times the lost-write variants, plus second crashes during recovery, is recovered with the real code and must equal a prefix containing all acknowledged puts; generated concurrent programs must be linearizable (keys may already hold values on the device when the store is opened, puts draw half of their values from the same small pool so that a put can meet its own value, and in 2/3 of the programs one client is held at one of its device accesses until the others have finished). A concurrent crash unit runs 1-4 clients with small puts on keys of their own next to 1-2 callers whose 520-pair puts the journal refuses: at sampled acknowledgements (and at every one during which the journal header was not written) the device image of that moment, un-barriered writes lost, is recovered and must hold the acknowledged values. Fault enumeration is the right level because the property quantifies over crash points, which are finite per trace and enumerated completely.",
     "level_note": "Sampled: programs and goroutine schedules. Enumerated per program: crash points and loss variants as described. Trusts the disk contract (atomic block writes, barriers) and porcupine.",
     "rule": ("rapid-generated multi-put/get programs on kvs.KVS over a recording disk. Units: sequential state machine vs a map "
              "(non-trivial: >=2 puts and a reopen or an overwritten key); oversized puts around the 511-block journal limit; "
@@ -22,7 +22,7 @@ PROPS["C18"] = {
              "concurrent clients checked with porcupine against a map with atomic multi-key puts (non-trivial: operations of different "
              "clients overlap in time). distinct = FNV hash of (program, crash point, variant) resp. of the history."),
     "assumptions": COMMON_ASSUMPTIONS + ["keys in [LOGSIZE, sz) and 4096-byte values only (documented precondition; others panic by contract)"],
-    "required_classes": ["crash_images", "conc_with_overlap", "seq_with_reopen"],
+    "required_classes": ["conc_with_a_client_held_at_a_disk_access", "acknowledgements_verified_in_a_crash_image", "crash_images", "conc_with_overlap", "seq_with_reopen"],
     "units": [
         {"test": "^TestC18Seq$", "quick": {"checks": 300, "shards": 2}, "thorough": {"checks": 5000, "shards": 4}},
         {"test": "^TestC18BigPut$", "quick": {"checks": 60}, "thorough": {"checks": 600, "shards": 2}},
@@ -41,12 +41,12 @@ CRASH_ASSUMPTIONS = COMMON_ASSUMPTIONS + [
 PROPS["C01"] = {
     "level": "fault_enumeration",
     "technique": "generated NFS programs (rapid) -> recorded disk trace -> enumeration of crash points x lost-write variants -> real recovery -> prefix oracle against the reference model; sampled second crashes during recovery and post-recovery workloads",
-    "level_text": "For each generated client program (all mutating RPCs, three stability levels, multi-block and sparse writes, truncations, removals of files large enough for the background shrinker, clean restarts with and without COMMIT) one live run records every disk write and barrier; crash points (quick: <=300 per program, commit-adjacent first; thorough: all) x loss variants are recovered with nfs.MakeNfs and the whole tree (names, handles, sizes, bytes, link targets) must equal the reference state after a prefix j with last-stable-ack <= j <= last-started. 1/16 of the recovered servers run a further workload under the sequential oracle, 1/16 are crashed again at every point of their own recovery writes.",
+    "level_text": "For each generated client program (all mutating RPCs, three stability levels, multi-block and sparse writes, truncations, removals of files large enough for the background shrinker, clean restarts with and without COMMIT) one live run records every disk write and barrier; crash points (quick: <=300 per program, commit-adjacent first; thorough: all) x loss variants are recovered with nfs.MakeNfs and the whole tree (names, handles, sizes, bytes, link targets) must equal the reference state after a prefix j with last-stable-ack <= j <= last-started. 1/16 of the recovered servers run a further workload under the sequential oracle, 1/16 are crashed again at every point of their own recovery writes. A concurrent unit runs 2-4 clients, each in its own directory (so what the directory must hold when one of its stable requests is acknowledged is known exactly), next to requests the journal refuses (600-block symlink targets) and 300-block stable writes; at sampled acknowledgements - and at every one during which the journal header was not written - the device image of that moment (cut, and with all un-barriered writes lost) is recovered and the client's directory compared with its own model.",
     "level_note": "Programs, and the timing of background threads in the live run, are sampled; crash points and loss variants are enumerated per trace as stated. Trusts the reference model (harness/checks/model.go) and the disk contract.",
     "rule": ("unit = one crash image (program, crash point k, loss variant). Non-trivial: an operation is in flight or unstable operations are pending at k "
              "(the oracle window lo<hi), or at least one un-barriered write is dropped. distinct = FNV hash of (program history, disk size, k, variant)."),
     "assumptions": CRASH_ASSUMPTIONS,
-    "required_classes": ["crash_images", "images_followed_by_suffix_workload", "recrash_images"],
+    "required_classes": ["acknowledgements_verified_in_a_crash_image", "crash_images", "images_followed_by_suffix_workload", "recrash_images"],
     "units": [
         {"test": "^TestC01Crash$", "quick": {"checks": 5, "shards": 2, "procs": 8, "timeout": 600},
          "thorough": {"checks": 60, "shards": 4, "procs": 4, "timeout": 7200}},
@@ -57,11 +57,11 @@ PROPS["C01"] = {
 PROPS["C07"] = {
     "level": "fault_enumeration",
     "technique": "generated UNSTABLE/DATA_SYNC/FILE_SYNC write + COMMIT programs (rapid) -> recorded disk trace -> crash-point x lost-write enumeration -> prefix oracle with stable acknowledgements as lower bound; reply checks for committed level and write verifier",
-    "level_text": "Same engine as C01 with programs biased to writes of all three stability levels on several files interleaved with COMMITs and metadata operations, server option Unstable on (3/4) and off (1/4), clean restarts with and without a preceding COMMIT. Oracle: data readable immediately (sequential oracle on every reply); committed >= requested and FILE_SYNC when the option is off; a reply claiming DATA_SYNC/FILE_SYNC, a COMMIT, or any later stable operation raises the durable lower bound; every crash image and every restart must show a prefix of the acknowledgement order (no hole, nothing stable lost); one verifier per server instance, different across instances.",
+    "level_text": "Same engine as C01 with programs biased to writes of all three stability levels on several files interleaved with COMMITs and metadata operations, server option Unstable on (3/4) and off (1/4), clean restarts with and without a preceding COMMIT. Oracle: data readable immediately (sequential oracle on every reply); committed >= requested and FILE_SYNC when the option is off; a reply claiming DATA_SYNC/FILE_SYNC, a COMMIT, or any later stable operation raises the durable lower bound; every crash image and every restart must show a prefix of the acknowledgement order (no hole, nothing stable lost); one verifier per server instance, different across instances. The concurrent acknowledgement unit of C01 runs here with UNSTABLE writes and COMMITs (count 0 = to the end of the file) dominating: a COMMIT or stable request acknowledged while other clients' requests are being refused by the journal must have made everything before it durable in the device image of that moment. Fixed regressions (COMMIT after a refused commit; verifier) run as plain deterministic checks.",
     "level_note": "As C01. The verifier-difference check compares instances within one case (restarts).",
     "rule": ("unit = one crash image of a write/commit-biased program. Non-trivial: at the crash point at least one UNSTABLE-acknowledged, state-changing operation is not yet covered by a stable acknowledgement. distinct = FNV hash of (program, k, variant)."),
     "assumptions": CRASH_ASSUMPTIONS,
-    "required_classes": ["crash_images", "images_with_unstable_acked_ops_pending"],
+    "required_classes": ["acknowledgements_verified_in_a_crash_image", "crash_images", "images_with_unstable_acked_ops_pending"],
     "units": [
         {"test": "^TestRegressC07$", "norapid": True, "quick": {"shards": 1}, "thorough": {"shards": 1}},
         {"test": "^TestC07Crash$", "quick": {"checks": 5, "shards": 2, "procs": 8, "timeout": 600},
@@ -205,11 +205,11 @@ PROPS["C13"] = {
 PROPS["C17"] = {
     "level": "fault_enumeration",
     "technique": "model-based stateful PBT (rapid) against an executable version of the SimpleNFS specification with boundary-dense inode numbers, offsets and counts; porcupine linearizability oracle per file over generated concurrent programs; crash-point x lost-write enumeration with a prefix oracle, recovered through both entry points",
-    "level_text": "Specification model: 30 files (inode 2..31) of <= 4096 bytes. Sequential state machine over GETATTR/SETATTR/READ/WRITE/LOOKUP/COMMIT and the twelve unsupported procedures with inode numbers {0,1,2,3,4,31,32,33,2^32,2^63,2^64-1}, offsets and sizes over 0..2^64-1 (dense at 0, the current size, 4095..4097, 2^31, 2^32, 2^63, 2^64-k) and counts incl. mismatches with the data length; every reply is compared with the specification (rejection of holes, mismatches and anything beyond 4096 bytes without effect; exact bytes; eof exactly when the read reaches the size; allocation bound for hostile sizes), full read-back after every step, restarts through both simple.Recover and simple.MakeNfs. Concurrent clients on the same two files are checked with porcupine partitioned per file. Crash: every explored crash point x loss variant of generated programs is recovered with both entry points and must equal the state after a prefix containing every acknowledged request.",
+    "level_text": "Specification model: 30 files (inode 2..31) of <= 4096 bytes. Sequential state machine over GETATTR/SETATTR/READ/WRITE/LOOKUP/COMMIT and the twelve unsupported procedures with inode numbers {0,1,2,3,4,31,32,33,2^32,2^63,2^64-1}, offsets and sizes over 0..2^64-1 (dense at 0, the current size, 4095..4097, 2^31, 2^32, 2^63, 2^64-k) and counts incl. mismatches with the data length; every reply is compared with the specification (rejection of holes, mismatches and anything beyond 4096 bytes without effect; exact bytes; eof exactly when the read reaches the size; allocation bound for hostile sizes), full read-back after every step, restarts through both simple.Recover and simple.MakeNfs. Concurrent clients on the same two files are checked with porcupine partitioned per file; in 2/3 of the programs one client is held at one of its first eight device accesses (before the access or after the data is fetched: a slow device) until the others have finished, and half of the programs are focused (client 0 only reads file 2, whose contents were installed beforehand, while the others rewrite and truncate it). Crash: every explored crash point x loss variant of generated programs is recovered with both entry points and must equal the state after a prefix containing every acknowledged request.",
     "level_note": "Sampled programs and schedules; crash points enumerated per trace (quick <=300, thorough all). Runs in child processes: a fatal runtime error (e.g. out of memory) is reported as a violation.",
     "rule": ("unit = one sequence / concurrent program / crash image. Non-trivial: sequence with >=1 successful mutation and >=1 rejected WRITE/SETATTR on a valid file; concurrent program in which operations of different clients overlap in time; crash image with a request in flight or lost writes. distinct = FNV hash of the history resp. (program, crash point, variant)."),
     "assumptions": COMMON_ASSUMPTIONS,
-    "required_classes": ["seq_with_rejected_write_or_setattr", "seq_with_restart", "conc_with_overlap", "crash_images"],
+    "required_classes": ["conc_with_a_client_held_at_a_disk_access", "seq_with_rejected_write_or_setattr", "seq_with_restart", "conc_with_overlap", "crash_images"],
     "units": [
         {"test": "^TestRegressC17$", "norapid": True, "quick": {"shards": 1}, "thorough": {"shards": 1}},
         {"test": "^TestC17Seq$", "oom_is_violation": True, "quick": {"checks": 60, "shards": 8}, "thorough": {"checks": 1500, "shards": 12}},
